@@ -143,6 +143,15 @@ def campaign(c):
             txt = (tmpl % ((ch,) * tmpl.count('%s')))[1:-1]
             want = pydecode(txt)
             expect_value(c, '"%s"' % txt, ('str:' + sh_hex(want)) if want is not None else None)
+    # every printable ASCII character in the place of a hex digit (the digit count stays even, so only the character class
+    # decides): signs, radix prefixes, brackets ... none of them is a digit or a filler unless the rules say so
+    for code in range(0x20, 0x7f):
+        ch = chr(code)
+        if ch in '"\\': continue
+        for tmpl in ('|%s4|', '|4%s|', '|%s4 %s1|', '|41 %s2 43|', '|%s%s|', 'a|%s4|', '|%s4|b', '|4%s|4%s|', '|%s|', '|0%s0|', '|0 %s 0|'):
+            txt = tmpl % ((ch,) * tmpl.count('%s'))
+            want = pydecode(txt)
+            expect_value(c, '"%s"' % txt, ('str:' + sh_hex(want)) if want is not None else None)
     for i in range(300 if c.quick else 6000):
         r = c.rng.fork('ms%d' % i)
         parts = []
